@@ -19,7 +19,7 @@
      wf_senv w fb S      the compile-time frame layout: every local's slot lies in ([fp]-top, [fp]-fb],
                          distinct locals are disjoint (fb = w: the frame base is the return address)
      tight w S           the frame holds exactly the return address and the locals in scope
-     rep w R lo gl ng S s m    memory m holds store s in that frame: registers in bounds, the frame inside
+     rep w R lo gl ng nbg S s m    memory m holds store s in that frame: registers in bounds, the frame inside
                          the state section, each int local's word read signed = its value, each bool
                          local's byte = its value (0 / 1); [ap] = lo (the stack area starts at lo)
      need_stmts S ss     the largest frame offset the lowered code reaches (STACK ROOM; it is also
@@ -29,7 +29,8 @@
      post .. out m m'    Normal: m' represents the final store in the final environment; Break /
                          Continue: the enclosing block's locals are represented; Return (Some v):
                          the word at [fp]-w read signed is v
-     gl, ng, gagree      the ng int globals live at or above gl (stack_end), above every frame; statements
+     gl, ng, nbg, gagree the ng int globals (words) and nbg bool globals (bytes holding 0 / 1) live at or
+                         above gl (stack_end), above every frame, pairwise apart; statements
                          may change them: frame_post / fagree are `gagree`: r0, r1, r2, the stack below
                          the bound and the globals area may differ; rep includes the global part of the store
      lib_hyps w R code   what a library call or a division guard needs: hidc's register layout and
@@ -60,12 +61,13 @@ Hypothesis ext_range : forall x, 0 <= ext x < Machine.W w.
 Variable funs : list fundef.
 Variable gl : Z.          (* the int globals lie at or above gl *)
 Variable ng : nat.        (* their number *)
+Variable nbg : nat.       (* the number of bool globals (bytes at or above gl) *)
 Hypothesis Hgl : lo <= gl.
 Notation act := (Machine.act w code cmem).
 Notation Halts := (HidV.Sphinx.Halts.Halts act).
 Notation runs := (HidV.Sphinx.Halts.runs act).
 Notation FP := (LowerBoolProofs.FP w R).
-Notation scoped := (ssscoped w ng (lib_hyps w R code) no_calls).
+Notation scoped := (ssscoped w ng nbg (lib_hyps w R code) no_calls).
 
 Theorem C01_stmts_lowering_correct ss d s0 evs s1 S st B m :
   execs w funs d ss s0 evs ONormal s1 ->
@@ -73,12 +75,12 @@ Theorem C01_stmts_lowering_correct ss d s0 evs s1 S st B m :
   let C := fst (fst (fst r)) in
   let S' := snd (fst (fst r)) in
   code_at code B (resolve R ext B C) -> 0 <= B -> B + size C < Machine.W w ->
-  wf_senv w w S -> tight w S -> rep w R lo gl ng S s0 m -> d = FP m - lo ->
+  wf_senv w w S -> tight w S -> rep w R lo gl ng nbg S s0 m -> d = FP m - lo ->
   scoped (length (ioffs S)) (length (boffs S)) false ss ->
   need_stmts S ss <= FP m - lo ->
   exists m', runs (mk B m) (map EOut evs) (mk (B + size C) m') /\
-             rep w R lo gl ng S' s1 m' /\ wf_senv w w S' /\ fagree w R lo w gl m m'.
-Proof. exact (@stmts_lowering_correct w Hw code cmem R lo ext ext_range funs gl ng Hgl ss d s0 evs s1 S st B m). Qed.
+             rep w R lo gl ng nbg S' s1 m' /\ wf_senv w w S' /\ fagree w R lo w gl m m'.
+Proof. exact (@stmts_lowering_correct w Hw code cmem R lo ext ext_range funs gl ng nbg Hgl ss d s0 evs s1 S st B m). Qed.
 
 (* every outcome: break / continue leave to the loop's labels with the outer locals represented,
    return leaves to the return address with the result in the return-address slot, a zero divisor
@@ -90,7 +92,7 @@ Theorem C01_stmts_lowering_correct_gen ss d s0 evs out s1 S li st B m :
   let S' := snd (fst (fst r)) in
   code_at code B (resolve R ext B C) -> 0 <= B -> B + size C < Machine.W w ->
   match li with Some (lc, lb) => below st lc /\ below st lb | None => True end ->
-  wf_senv w w S -> tight w S -> rep w R lo gl ng S s0 m -> d = FP m - lo ->
+  wf_senv w w S -> tight w S -> rep w R lo gl ng nbg S s0 m -> d = FP m - lo ->
   scoped (length (ioffs S)) (length (boffs S)) (match li with Some _ => true | None => false end) ss ->
   need_stmts S ss <= FP m - lo ->
   exists m' pc',
@@ -102,40 +104,40 @@ Theorem C01_stmts_lowering_correct_gen ss d s0 evs out s1 S li st B m :
     | OFault ft, _ => pc' = a_lib R + fault_off ft
     | _, None => False
     end /\
-    runs (mk B m) (map EOut evs) (mk pc' m') /\ frame_post w R lo w gl out m m' /\ post w R lo w gl ng S S' s0 s1 out m m'.
-Proof. exact (@stmts_lowering_correct_gen w Hw code cmem R lo ext ext_range funs gl ng Hgl ss d s0 evs out s1 S li st B m). Qed.
+    runs (mk B m) (map EOut evs) (mk pc' m') /\ frame_post w R lo w gl out m m' /\ post w R lo w gl ng nbg S S' s0 s1 out m m'.
+Proof. exact (@stmts_lowering_correct_gen w Hw code cmem R lo ext ext_range funs gl ng nbg Hgl ss d s0 evs out s1 S li st B m). Qed.
 
 (* a zero divisor (checked build): the run is committed to the fault stub *)
 Theorem C01_stmts_fault_correct ss d s0 evs ft s1 S st B m :
   execs w funs d ss s0 evs (OFault ft) s1 ->
   let C := fst (fst (fst (lower_stmts S None ss st))) in
   code_at code B (resolve R ext B C) -> 0 <= B -> B + size C < Machine.W w ->
-  wf_senv w w S -> tight w S -> rep w R lo gl ng S s0 m -> d = FP m - lo ->
+  wf_senv w w S -> tight w S -> rep w R lo gl ng nbg S s0 m -> d = FP m - lo ->
   scoped (length (ioffs S)) (length (boffs S)) false ss ->
   need_stmts S ss <= FP m - lo ->
   exists m', runs (mk B m) (map EOut evs) (mk (a_lib R + fault_off ft) m').
-Proof. exact (@stmts_fault_correct w Hw code cmem R lo ext ext_range funs gl ng Hgl ss d s0 evs ft s1 S st B m). Qed.
+Proof. exact (@stmts_fault_correct w Hw code cmem R lo ext ext_range funs gl ng nbg Hgl ss d s0 evs ft s1 S st B m). Qed.
 
 Theorem C01_body_lowering_correct ss d s0 evs s1 S st B m :
   execs w funs d ss s0 evs ONormal s1 ->
   let C := fst (lower_body S ss st) in
   code_at code B (resolve R ext B C) -> 0 <= B -> B + size C < Machine.W w ->
-  wf_senv w w S -> tight w S -> rep w R lo gl ng S s0 m -> d = FP m - lo ->
+  wf_senv w w S -> tight w S -> rep w R lo gl ng nbg S s0 m -> d = FP m - lo ->
   scoped (length (ioffs S)) (length (boffs S)) false ss ->
   need_stmts S ss <= FP m - lo ->
   let ra := Machine.lw w m (FP m - w) in
   exists m', runs (mk B m) (map EOut evs) (mk ra m') /\ gagree w R lo gl (FP m) m m'.
-Proof. exact (@body_lowering_correct w Hw code cmem R lo ext ext_range funs gl ng Hgl ss d s0 evs s1 S st B m). Qed.
+Proof. exact (@body_lowering_correct w Hw code cmem R lo ext ext_range funs gl ng nbg Hgl ss d s0 evs s1 S st B m). Qed.
 
 Theorem C01_stmts_no_new_halt ss d s0 evs s1 S st B m :
   execs w funs d ss s0 evs ONormal s1 ->
   let C := fst (fst (fst (lower_stmts S None ss st))) in
   code_at code B (resolve R ext B C) -> 0 <= B -> B + size C < Machine.W w ->
-  wf_senv w w S -> tight w S -> rep w R lo gl ng S s0 m -> d = FP m - lo ->
+  wf_senv w w S -> tight w S -> rep w R lo gl ng nbg S s0 m -> d = FP m - lo ->
   scoped (length (ioffs S)) (length (boffs S)) false ss ->
   need_stmts S ss <= FP m - lo ->
   (forall m', ~ Halts (mk (B + size C) m')) -> ~ Halts (mk B m).
-Proof. exact (@stmts_no_new_halt w Hw code cmem R lo ext ext_range funs gl ng Hgl ss d s0 evs s1 S st B m). Qed.
+Proof. exact (@stmts_no_new_halt w Hw code cmem R lo ext ext_range funs gl ng nbg Hgl ss d s0 evs s1 S st B m). Qed.
 End P.
 
 (* the interpreter is sound for the relation *)
